@@ -130,7 +130,7 @@ def check_program(ctx, prog, layout, offsets, scratch, roles=QUERY_ROLES):
                 priv = oe.scope is not None and oe.scope.kind == "module" and (oe.vis == "private" or (oe.vis is None and oe.scope.default_private)) \
                     and (o.scope is None or oe.scope.unit() is not o.scope.unit())
                 outcome = "wrong:PRIVATE-entity-of-another-module" if priv else f"wrong:other-entity-same-spelling({oe.kind})"
-                if not priv and o.scope is not None and fws.leak_through_private_module(o.scope, oe):
+                if not priv and o.scope is not None and fws.leak_through_private_module(o.scope, oe, name=o.text):
                     outcome = "wrong:entity-leaked-through-a-default-PRIVATE-module"
                 elif o.scope is not None and fws.hidden_by_rename_list(o.scope, o.text, oe):
                     outcome = "wrong:name-hidden-by-a-rename-list-still-resolves-to-the-renamed-entity"
